@@ -41,6 +41,9 @@ def run(rep, tier):
         common.guarded(rep, "C03.8", c03.c03_8, rep, ix, M, cc, br)
     aliasing_lint(rep, ix)
     shared_tables(rep, ix, M.G)
+    # an initialiser is the text the caller wrote: nothing rewrites the script between the API and the lexer
+    from . import c10
+    common.guarded(rep, "C10.2", c10.c10_2, rep, ix)
 
 
 def c05_1(rep, ix, G):
